@@ -58,6 +58,18 @@ static T_cell* elementAt(Ring* self, size_t index) {
   return &self->slots[index];
 }
 
+/* ownership at the access itself: ring storage may be touched by the consumer only while the slot is published and not yet released
+ * (inside the cyclic [head_, tail_) as the indices stand now), by the producer only while it is free (outside it) */
+static void own_check(Ring* self, T_cell* c) {
+  for (size_t j = 0; j < kBufferSize; ++j) if (c == &self->slots[j]) {
+    if (g_role == 2) __CPROVER_assert(INRANGE(j, self->head_, self->tail_), "the consumer touches a slot only while it is published and not yet released (head_ not yet advanced past it)");
+    if (g_role == 1) __CPROVER_assert(!INRANGE(j, self->head_, self->tail_), "the producer touches a slot only while it is free (tail_ not yet advanced past it)");
+  }
+}
+static T_cell* S_construct_at(Ring* self, T_cell* c, T_tag v) { own_check(self, c); return T_construct_at(c, v); }
+static void S_destroy_at(Ring* self, T_cell* c) { own_check(self, c); T_destroy_at(c); }
+static T_tag S_move_from(Ring* self, T_cell* c) { own_check(self, c); return T_move_from(c); }
+
 /* ------------- producer operations ------------- */
 #define PRODUCER_PRE (self == g_ring && g_role == 1 && WF(self) && !g_bad_order && INV_K(self, g_k) && g_k < kBufferSize && g_occupancy0 == CYC(self->head_, self->tail_))
 size_t g_k; size_t g_occupancy0;   /* ghost: number of elements in the ring at entry */
